@@ -105,10 +105,12 @@ def ensure_ext() -> str:
     if os.path.exists(out):
       subprocess.call(["rm", "-rf", out])
     os.rename(tmp, out)
-    # drop stale builds (keep disk small)
+    # drop stale builds (keep disk small): only ones untouched for > 3 h, so concurrent checks on
+    # other trees (PYTYPE_REPO) never lose theirs
+    now = time.time()
     for d in os.listdir(os.path.join(BUILD, "ext")):
       p = os.path.join(BUILD, "ext", d)
-      if os.path.isdir(p) and d != key and ".tmp" not in d:
+      if os.path.isdir(p) and d != key and ".tmp" not in d and now - os.path.getmtime(p) > 3 * 3600:
         subprocess.call(["rm", "-rf", p])
   return so
 
